@@ -184,8 +184,8 @@ SPECS = {
         "module": "F80Trace",
         "release": True,
         "rule": ("I->S: + - * / (value and assigning forms) and neg on pairs from a boundary set of f64 bit patterns (signed zeros, "
-                 "subnormals, powers of two and neighbours, long carry chains, huge/tiny exponents, infinities, NaN; every third pair in "
-                 "quick, all pairs in thorough), random bit patterns and chains of 2-4 operations whose intermediate results use all 64 "
+                 "subnormals, powers of two and neighbours, long carry chains, huge/tiny exponents, infinities, NaN; every third pair, the "
+                 "thorough tier on a set extended by 68 more powers of two and their neighbours), random bit patterns and chains of 2-4 operations whose intermediate results use all 64 "
                  "significand bits; f64 -> f80 -> f64 on boundary and random patterns; f80 -> f64 narrowing of results inside the normal f64 "
                  "range; all nine relations (<, <=, >, >=, partial_cmp, ==, min, max, abs) on pairs of the boundary set extended with values "
                  "that need 64 bits and with intermediate results no f64 can hold (1e-600, 1e600, 2^-1076, 1 - 2^-64, just above f64::MAX). "
